@@ -9,7 +9,8 @@ def lay(rng, **force):
     L = {"indent": rng.choice(["  ", "    ", "\t"]), "crlf": rng.chance(1, 6), "sp_colon": rng.choice(["", " ", "  "]),
          "trail_nl": rng.chance(4, 5), "blank": rng.chance(1, 3), "comment": rng.chance(1, 3),
          "nonascii": rng.chance(1, 8), "compact": rng.chance(1, 8), "quote": rng.choice(['"', "'", ""]),
-         "escape": rng.chance(1, 10), "trail_ws": rng.chance(1, 8), "flow": rng.chance(1, 10), "tabsep": rng.chance(1, 6)}
+         "escape": rng.chance(1, 10), "trail_ws": rng.chance(1, 8), "flow": rng.chance(1, 10), "tabsep": rng.chance(1, 6),
+         "lead_ws": rng.choice(["", "", "", "  ", "\t"])}
     L.update(force)
     return L
 
@@ -91,7 +92,7 @@ def go_mod(deps, L):
     others = [d for d in deps if d[0] in ("replace", "exclude", "retract")]
     for _, p, v, decl in singles:
         sep = "\t" if L["tabsep"] else " "
-        out.append(f"require{sep}{p}{sep}{v}" + (" // pinned" if L["comment"] else "") + ("  " if L["trail_ws"] else ""))
+        out.append(f"{L['lead_ws']}require{sep}{p}{sep}{v}" + (" // pinned" if L["comment"] else "") + ("  " if L["trail_ws"] else ""))
         if decl: declared.append(decl)
     if blocks:
         out.append("require (")
